@@ -78,6 +78,15 @@ def restart_oracle(r):
     elif r["executed"] == 0 and r["variant"].startswith("slowpush"):
         why.append("ResumeJob of a due job on a queue whose Push is slow (%s): the loop was woken before the change was in the queue and the "
                    "resumed job was not executed within 5 s after ResumeJob had returned" % r["variant"])
+    elif r["executed"] == 0 and r["variant"] == "popfault":
+        why.append("after one transient Pop failure the loop sat in its RetryInterval wait (8 s); a job scheduled meanwhile, due at once, was not "
+                   "executed within 5 s: the wake-up did not make the loop recompute its timer")
+    elif r["executed"] == 0 and r["variant"] == "replacegap":
+        why.append("ScheduleJob(Replace) of the job being dispatched (the loop was between Pop and its re-Push, inside a slow trigger): the "
+                   "replacement, due at once, was not executed within 5 s")
+    elif r["executed"] == 0 and r["variant"] == "startoverlap":
+        why.append("a ScheduleJob whose slow Push overlapped Start: the loop was parked on the empty queue when the job landed and the job, due at "
+                   "once, was not executed within 5 s (no wake-up)")
     elif r["executed"] == 0:
         why.append("after Stop(); Start() with the loop of the stopped run still alive (%s), a due job scheduled for the new run was not executed "
                    "within 5 s: its wake-up was consumed by the stopped run's loop" % r["variant"])
